@@ -110,15 +110,25 @@ Definition jbranch_at (n : N) (l : dline) : option (list bool) :=
   if dl_number l =? n then match dl_branches l with [] => None | b => Some (map (fun c => 0 <? c) b) end else None.
 Definition jfunc_at (f : name) (g : dfun) : option func :=
   if bool_decide (df_name g = f) then Some (mkFunc (df_start g) (0 <? df_count g)) else None.
-(* gcov lists a line of a file several times when several function instances contain it, the
-   file-level entry last; the later entry stands *)
-Definition spec_jline (ls : list dline) (n : N) : option N := last (omap (jline_at n) ls).
-Definition spec_jbranch (ls : list dline) (n : N) : option (list bool) := last (omap (jbranch_at n) ls).
+(* gcov lists a line of a file once per function that contains it (several functions on one line, template
+   instances, inlined copies): the line ran as often as all of them together, clamped at 2^64-1, and its branches
+   are those of every entry, in entry order *)
+Definition sum_N (l : list N) : N := fold_right N.add 0 l.
+Definition spec_jline (ls : list dline) (n : N) : option N :=
+  match omap (jline_at n) ls with [] => None | cs => Some (N.min (sum_N cs) U64_MAX) end.
+Definition spec_jbranch (ls : list dline) (n : N) : option (list bool) :=
+  match omap (jbranch_at n) ls with [] => None | vs => Some (concat vs) end.
+(* a function listed twice under one demangled name: the later entry stands *)
 Definition spec_jfunc (fs : list dfun) (f : name) : option func := last (omap (jfunc_at f) fs).
 Definition jfile_spec (f : dfile) (c : cov) : Prop :=
   (forall n, c_lines c !! n = spec_jline (dfile_lines f) n) /\
   (forall n, c_branches c !! n = spec_jbranch (dfile_lines f) n) /\
   (forall g, c_funcs c !! g = spec_jfunc (dfile_funs f) g).
+(* the entries of line n, in entry order *)
+Definition entries_of (n : N) (ls : list dline) : list dline := filter (fun l => dl_number l = n) ls.
+(* witness of the repaired finding C20/gcov-json-line-in-several-functions: `int f(..){..} int g(..){..}` on line 1,
+   f run 3 times, g never; gcov lists line 1 once for f and once for g *)
+Definition witness_two_functions_one_line : list dline := [mkDLine 1 3 [3; 0]; mkDLine 1 0 [0; 0]].
 Definition has_jline (f : dfile) : bool := match dfile_lines f with [] => false | _ => true end.
 Definition jreport_spec (t : list dfile) (rs : list (name * cov)) : Prop :=
   Forall2 (fun f r => r.1 = dfile_name f /\ jfile_spec f r.2) (filter (fun f => has_jline f = true) t) rs.
